@@ -246,14 +246,18 @@ func twoTemplates(c *CheckRun, pool int) []*Scenario {
 			}
 			big := cls.grow > 5
 			if !big {
-				ops = append(ops, [3]int{0, opInsert, aSpec(0, 1)}, [3]int{1, opDelete, aSpec(0, 1)}, [3]int{1, opInsert, aSpec(0, 1)})
+				ops = append(ops, [3]int{0, opInsert, aSpec(0, 1)}, [3]int{1, opDelete, aSpec(0, 1)})
 			}
 			// tree A is emptied by deletion and then used again
 			for _, b := range bs[:cls.shrink] {
 				ops = append(ops, [3]int{0, opDeleteC, cKey1(b)})
 			}
-			ops = append(ops, [3]int{0, opInsert, aSpec(0, 1)}, [3]int{0, opInsert, aSpec(0, 2)})
-			p := []int{pool, kindAlphaB, kb, ckShape, len(ops)}
+			ops = append(ops, [3]int{0, opInsert, aSpec(0, 1)}, [3]int{0, opInsertC, cKey1(0x41)})
+			mask := ckShape
+			if big {
+				mask = 0 // the walker over 48/256-way nodes after each of ~150 operations exceeds the step budget; final() still checks the shape
+			}
+			p := []int{pool, kindAlphaB, kb, mask, len(ops)}
 			for _, o := range ops {
 				p = append(p, o[0], o[1], o[2])
 			}
@@ -262,7 +266,7 @@ func twoTemplates(c *CheckRun, pool int) []*Scenario {
 				pb = conc(bs[0]) | 1<<30
 			}
 			p = append(p, pa, pb)
-			out = append(out, &Scenario{Harness: "hTwo", Params: p, Label: fmt.Sprintf("F-two %s released by A, acquired by B (%s), pool=%d", name, kindNames[kb], pool)})
+			out = append(out, &Scenario{Harness: "hTwo", Params: p, MaxSteps: 300_000_000, Label: fmt.Sprintf("F-two %s released by A, acquired by B (%s), pool=%d", name, kindNames[kb], pool)})
 		}
 	}
 	return out
